@@ -6,6 +6,8 @@ use std::f64::consts::PI;
 
 mod oracle;
 mod props;
+mod battery;
+mod ikprops;
 
 pub struct Case(pub HashMap<String, Vec<f64>>, pub HashMap<String, String>);
 impl Case {
